@@ -23,7 +23,8 @@ from .core import SimCrash
 PREFIX = "/simfs/"          # an absolute, normal, non-URL-looking path: survives abspath/realpath/urlparse untouched
 FAKE_FD = [1 << 24]
 _REAL_OPEN = builtins.open
-_OS_NAMES = ("sendfile", "open", "stat", "lstat", "replace", "rename", "remove", "unlink", "fsync", "close", "write", "makedirs", "mkdir",
+_REAL_FILEIO = io.FileIO
+_OS_NAMES = ("read", "fstat", "lseek", "sendfile", "open", "stat", "lstat", "replace", "rename", "remove", "unlink", "fsync", "close", "write", "makedirs", "mkdir",
              "access", "listdir", "scandir", "truncate", "ftruncate")
 _PATH_NAMES = ("exists", "isfile", "isdir", "getsize", "getmtime", "lexists", "samefile")
 _REAL_OS = {n: getattr(os, n) for n in _OS_NAMES}
@@ -118,6 +119,7 @@ class SimRaw(io.RawIOBase):
         if not hasattr(self, "_fd"):
             self._fd = FAKE_FD[0]
             FAKE_FD[0] += 1
+            self.fs.raw_fds[self._fd] = self.path
         return self._fd
 
     def readable(self):
@@ -201,6 +203,7 @@ class SimFS:
         self.opens = []            # (path, mode) history, for oracles
         self.fds = {}              # fake descriptors handed out by OsProxy.open
         self.fd_pos = {}           # write position of descriptors used with os.write
+        self.raw_fds = {}          # fileno() of open simulated files -> path (for os.fstat and the like)
 
     # fault plan ---------------------------------------------------------
     def arm(self, fault):
@@ -365,6 +368,7 @@ class OsProxy:
     def close(self, fd):
         if fd in self._fs.fds:
             self._fs.fds.pop(fd)
+            self._fs.fd_pos.pop(fd, None)
             return None
         return self._os.close(fd)
 
@@ -400,6 +404,31 @@ class OsProxy:
             self._fs.fd_pos[fd] = pos + len(data)
             return len(data)
         return self._os.write(fd, data)
+
+    def fstat(self, fd):
+        if fd in self._fs.fds:
+            return self._fs.disk.stat(self._fs.fds[fd][0])
+        if fd in self._fs.raw_fds:
+            return self._fs.disk.stat(self._fs.raw_fds[fd])
+        return self._os.fstat(fd)
+
+    def read(self, fd, n):
+        if fd in self._fs.fds:
+            path, _flags = self._fs.fds[fd]
+            pos = self._fs.fd_pos.get(fd, 0)
+            data = bytes(self._fs.disk.files[path][pos:pos + n])
+            self._fs.fd_pos[fd] = pos + len(data)
+            return data
+        return self._os.read(fd, n)
+
+    def lseek(self, fd, pos, how):
+        if fd in self._fs.fds:
+            size = len(self._fs.disk.files[self._fs.fds[fd][0]])
+            cur = self._fs.fd_pos.get(fd, 0)
+            new = pos if how == 0 else cur + pos if how == 1 else size + pos
+            self._fs.fd_pos[fd] = new
+            return new
+        return self._os.lseek(fd, pos, how)
 
     def sendfile(self, out_fd, in_fd, *a, **k):
         if max(out_fd, in_fd) >= (1 << 20):             # no zero-copy between simulated files: callers fall back to read/write
@@ -485,7 +514,8 @@ class Patched:
         import io as _io
         import os as _os_mod
         proxy = OsProxy(_os_mod, self.fs)
-        for mod, name, val in [(builtins, "open", self.fs.open), (_io, "open", self.fs.open)] + \
+        for mod, name, val in [(builtins, "open", self.fs.open), (_io, "open", self.fs.open),
+                               (_io, "FileIO", _fileio_shim(self.fs))] + \
                 [(_os_mod, n, getattr(proxy, n)) for n in _OS_NAMES if n != "scandir"] + \
                 [(_os_mod.path, n, getattr(proxy.path, n)) for n in _PATH_NAMES if hasattr(OsPathProxy, n)]:
             self.saved.append((mod, name, getattr(mod, name)))
@@ -532,6 +562,26 @@ class _DictItem:
 
     def __setattr__(self, name, v):
         self._d[self._k] = v
+
+
+def _fileio_shim(fs):
+    """io.FileIO for simulated paths / fake descriptors (the raw layer of hand-built I/O stacks)."""
+    class _Meta(type):
+        def __instancecheck__(cls, obj):
+            return isinstance(obj, (_REAL_FILEIO, SimRaw))
+
+    class FileIO(metaclass=_Meta):
+        def __new__(cls, file, mode="r", closefd=True, opener=None):
+            core = mode.replace("b", "")
+            if isinstance(file, int) and file in fs.fds:
+                path, flags = fs.fds[file] if not closefd else fs.fds.pop(file)
+                fs.opens.append((path, mode))
+                return SimRaw(fs, path, core + ("n" if "w" in core and not flags & os.O_TRUNC else ""))
+            if is_sim(file):
+                fs.opens.append((as_key(file), mode))
+                return SimRaw(fs, as_key(file), core)
+            return _REAL_FILEIO(file, mode, closefd, opener)
+    return FileIO
 
 
 def _lock_shim(real):
